@@ -219,8 +219,13 @@ def check(prog, rep, tier):
         rep.bad("C20.who-may-access", f"{CLS}.{extra[0]}", "direct access", f"{extra} access the byte array without the guard", K.module.relpath + ":1")
     else:
         rep.ok("C20.who-may-access", f"direct access only in {sorted(allowed)}")
-    if not {"__setitem__", "check_bit", "set_bit", "clear_bit"} <= set(guarded):
-        raise AnalysisError(f"anchor vanished: guarded accessors found: {guarded}")
+    for nm in ("__setitem__", "check_bit", "set_bit", "clear_bit"):
+        if nm in guarded:
+            continue
+        if K.find_method(nm) is None:
+            raise AnalysisError(f"anchor vanished: Bitarray.{nm}")
+        rep.bad("C20.addressing", f"{CLS}.{nm}", "no access to the byte array",
+                f"{nm} no longer {'reads' if nm == 'check_bit' else 'writes'} the bit it is asked for", K.find_method(nm).where())
     # ---- as_string / num_bits_set: comprehension over range(size) of check_bit(elem)
     for name in ("as_string", "num_bits_set"):
         f = prog.method(CLS, name)
